@@ -45,4 +45,9 @@ func ToIncrementalResponse
   modifies everything
   ensures result != nil && fresh(result)
   ensures C13/fields: result.Start == proof.Start && result.End == proof.End
+
+// ASSUMED (C17): encoding a batch does not fail. (If it did, Sender.batcher would drop the
+// snapshot it has just received and keep the full batch: the `continue` in its full-batch branch.)
+func BatchSnapshots.Encode
+  assumes isnil(result_1)
 @*/
